@@ -1196,7 +1196,10 @@ func genC04(ctx *hx.Ctx, emit func(hx.Case)) {
 	var optSets []optSel
 	if ctx.Thorough() {
 		for m := 0; m < 32; m++ {
-			optSets = append(optSets, optSel{m, allowSets[0]}, optSel{m, allowSets[1+m%3]})
+			optSets = append(optSets, optSel{m, allowSets[0]})
+			if m%4 == 0 || m == 31 {
+				optSets = append(optSets, optSel{m, allowSets[1+(m/4)%3]})
+			}
 		}
 	} else {
 		optSets = []optSel{{0, allowSets[0]}, {1, allowSets[0]}, {2, allowSets[0]}, {4, allowSets[0]}, {8, allowSets[0]}, {16, allowSets[0]},
@@ -1254,7 +1257,7 @@ func genC04(ctx *hx.Ctx, emit func(hx.Case)) {
 	r := ctx.Rng
 	count := 1500
 	if ctx.Thorough() {
-		count = 40000
+		count = 15000
 	}
 	for i := 0; i < count; i++ {
 		b := &c04Builder{doc: deepCopy(base).(map[string]any)}
